@@ -172,7 +172,7 @@ func c11Gen(r *Rand, tier string, scale int, emit func(Fields)) {
 	ms := []string{"Privmsg", "Notice", "Ctcp", "CtcpReply", "Privmsgln", "Privmsgf"}
 	for i := 0; i < nwire; i++ {
 		n := c11SplitLens[r.Intn(len(c11SplitLens))]
-		if i%10 == 0 {
+		if i%10 == 0 && i < 600 {
 			// many pieces (more than the 32-slot output queue holds) against a server that pauses
 			emit(F("wire", r.Pick(ms), r.Pick(targets), r.Pick(verbs), r.Bytes(r.Range(600, 1200), []byte("abcdefgh ijkl. mnop, qrs")), 13, "slow"))
 			continue
